@@ -139,7 +139,7 @@ def _pool_for(r, t):
 
 
 def gen_cases(rng, tier):
-    n = {"quick": 120, "thorough": 2500, "search": 800}[tier]
+    n = {"quick": 500, "thorough": 6000, "search": 1500}[tier]
     cases = []
     # --- every type (scalar and list form) x the whole pool
     for t in SCALARS + [x + "[]" for x in LISTABLE]:
@@ -223,10 +223,18 @@ def _state(rec, fields):
     from flow.record import RecordPacker
     st = {"slots": [V.observe(getattr(rec, fn)) for _, fn in fields], "typed": _typed_flags(rec, fields)}
     try:
-        blob = RecordPacker().pack(rec)
+        packer = RecordPacker()
+        blob = packer.pack(rec)
         st["pack"] = "ok" if isinstance(blob, (bytes, bytearray)) and len(blob) > 0 else "empty"
     except Exception as e:
         st["pack"] = type(e).__name__
+        return st
+    # decoding: the record read back from the packed form must be typed as well
+    try:
+        back = packer.unpack(blob)
+        st["decoded"] = _typed_flags(back, fields)
+    except Exception as e:
+        st["decoded"] = "raised " + type(e).__name__
     return st
 
 
@@ -364,6 +372,16 @@ def _check_state(fields, st, what):
             return f"{what}: field {fn} ({t}) holds {flag}"
     if st["pack"] != "ok":
         return f"{what}: record accepted all assignments but cannot be serialised ({st['pack']})"
+    return _check_decoded(fields, st, what)
+
+
+def _check_decoded(fields, st, what):
+    dec = st.get("decoded")
+    if isinstance(dec, str):
+        return None          # whether the packed form reads back at all is C01's subject
+    for (t, fn), flag in zip(fields, dec or []):
+        if flag not in ("ok", "none") and not flag.startswith("pass-through"):
+            return f"{what}: after decoding, field {fn} ({t}) holds {flag}"
     return None
 
 
@@ -395,7 +413,7 @@ def oracle(case, obs):
             return None
         if st["pack"] != "ok" and (t not in ("record",) or _is_record_candidate(case["value"])):
             return f"{t} accepted {json.dumps(case['value'])[:60]} but the record cannot be serialised ({st['pack']})"
-        return None
+        return _check_decoded([[t, "f"]], st, f"{t}({json.dumps(case['value'])[:40]})")
     if k == "seq":
         fields = case["fields"]
         if "error" in obs["construct"]:
